@@ -38,6 +38,7 @@ const STEPS: usize = 9;
 
 fn step(i: &mut Inst, n: usize) {
     let user = addr("user");
+    sc::trace_clear();
     let out = match n {
         0 => format!("{:?}", (i.app.store_code(sc::contract()), i.app.store_code_with_id(addr("creator"), 9, sc::contract_v2()).map_err(|e| e.to_string()), i.app.store_code(sc::contract()))),
         1 => {
@@ -91,7 +92,10 @@ fn step(i: &mut Inst, n: usize) {
             format!("{:?} {:?}", i.app.block_info().height, i.app.wrap().query_wasm_code_info(9).map(|c| c.checksum).map_err(|e| e.to_string()))
         }
     };
-    i.log.push(out);
+    // ... and everything the contracts were shown while it ran (sender, funds, block, the whole Reply
+    // including gas_used: nothing a contract can observe may differ between instances; seed C19c)
+    let seen: Vec<String> = sc::trace_take().iter().map(|e| format!("{}:{:?}:{:?}:{:?}:{:?}", e.entry, e.sender, e.funds, e.block, e.reply)).collect();
+    i.log.push(format!("{} || contracts saw {:?}", out, seen));
 }
 
 fn run() {
